@@ -311,6 +311,12 @@ def runSection (r : Report) (s : Section) : Report := Id.run do
         r := r.mismatch s.idx l.idx "nested-transact-refused" impl
         r := r.violation s.idx l.idx s!"clauses=[nested-transaction-refused] impl=[{impl}] op=[{joinSp l.op}]"
         continue
+      -- a statement that must yield an error (driver fault, nested Transact) yielded none: the body had no chance to
+      -- return it (the harness marks this `lost`)
+      if (((kvStr l.obs "body" "") ++ (kvStr l.obs "ret" "")).splitOn "lost").length > 1 then
+        r := r.mismatch s.idx l.idx "statement-error-reaches-body" impl
+        r := r.violation s.idx l.idx s!"clauses=[statement-error-reaches-body] impl=[{impl}] op=[{joinSp l.op}]"
+        continue
       -- RawDB() of a connection made from the transaction's session must be refused (errNoRawDBFromTx)
       if (((kvStr l.obs "body" "") ++ (kvStr l.obs "ret" "")).splitOn "rawdbleak").length > 1 then
         r := r.mismatch s.idx l.idx "raw-db-refused" impl
